@@ -9,6 +9,7 @@ ROOT = "/verif"
 SCRATCH = os.environ.get("VERIF_SCRATCH", "/var/tmp/verif-scratch")
 flt = [a for a in sys.argv[1:] if not a.startswith("-")]
 jobs = 6
+RESULTS = {}
 claimed = {c["property_id"] for c in json.load(open(ROOT + "/MANIFEST.json"))["checks"]}
 
 def cases():
@@ -37,6 +38,7 @@ def run(case):
         if r.returncode != 0:
             return name, "PATCH-FAILED", r.stdout + r.stderr
         res = []
+        fired_rules = []
         okall = True
         for prop in props:
             if prop not in claimed:
@@ -50,12 +52,15 @@ def run(case):
             r = subprocess.run([ROOT + "/bin/oapsa", "-property", prop, "-tier", os.environ.get("TIER", "quick")], env=env, capture_output=True, text=True, cwd=ROOT)
             viol = [l for l in r.stdout.splitlines() if "] violated:" in l or "] undecided:" in l]
             fired = r.returncode != 0 and "VIOLATION property=" + prop in r.stdout
+            import re as _re
+            fired_rules += sorted({m.group(1) + "." + m.group(2) for l in viol for m in [_re.search(r"\[(C\d+) ([^\]]+)\]", l)] if m})
             if kind == "violation":
                 good = fired and (not rule or any(rule in l for l in r.stdout.splitlines()))
             else:
                 good = not fired and r.returncode == 0
             okall &= good
             res.append(f"{prop}: {'fired' if fired else 'silent'} rc={r.returncode} " + " / ".join(v[:160] for v in viol[:3]))
+        RESULTS[name] = {"kind": kind, "expected": props, "as_expected": bool(okall), "fired": fired_rules}
         return name, ("OK " if okall else "MISS") + f" [{kind}]", "\n     ".join(res)
     finally:
         shutil.rmtree(d, ignore_errors=True)
@@ -68,5 +73,7 @@ with cf.ThreadPoolExecutor(jobs) as ex:
         print(f"{verdict:18s} {name}\n     {detail}")
         bad += not verdict.startswith("OK")
 print(f"{len(cs)} cases, {bad} not as expected")
+if not flt:
+    json.dump(RESULTS, open(ROOT + "/selftest_results.json", "w"), indent=1, sort_keys=True)
 shutil.rmtree(SCRATCH, ignore_errors=True)
 sys.exit(1 if bad else 0)
